@@ -117,7 +117,10 @@ class RecordOf:
                 cols = [("Chromosome", x.chromosome), ("Start_Position", x.start), ("End_Position", x.end),
                         ("Tumor_Sample_Barcode", x.tumor), ("Matched_Norm_Sample_Barcode", x.normal)]
                 if allele_columns:
-                    cols += [("Reference_Allele", x.ref), ("Tumor_Seq_Allele2", x.alts[0])]
+                    # Tumor_Seq_Allele1 (the other allele of the genotype: the reference, the same alternate, or a third
+                    # allele) is not the record's alternate allele
+                    a1 = [x.ref, x.alts[0], "T", "G"][x.rid % 4]
+                    cols += [("Reference_Allele", x.ref), ("Tumor_Seq_Allele1", a1), ("Tumor_Seq_Allele2", x.alts[0])]
                 for k, v in cols:
                     r.add(MafColumnRecord(k, v))
                 self.rid[id(r)] = x.rid
